@@ -30,6 +30,7 @@ func init() {
 			{"C06.store-writes", "the local store publishes a chunk only after its converted data was written completely (shared with C08/C20)", 4, func(c *Ctx) { c08Typestate(c); c20WriteFormat(c) }},
 			{"C06.backend-writes", "every back end's StoreChunk reports success only after its write primitives completed", 8, func(c *Ctx) { c.writePrimitives("C06") }},
 			{"C06.retried-reader-fresh", "a reader consumed inside a retry cycle is created inside it (shared with C04/C14)", 1, func(c *Ctx) { c.retriedReaderFresh() }},
+			{"C06.workers-started", "every loop that starts pool workers starts one per unit of the worker count (none is skipped for n == 1)", 6, func(c *Ctx) { c.workersStarted() }},
 			{"C06.errors-not-dropped", "no error of the operations this property depends on is dropped", 1, func(c *Ctx) { c.errorsNotDropped("C06") }},
 		},
 	})
